@@ -167,3 +167,117 @@ func removeClearsAlias(c *core.Ctx) {
 	}
 	c.Check(ok, "Backends.RemoveAll clears DefaultBackend when it removes that backend", at(c, del), "", "the removed backend may stay referenced by DefaultBackend: the model names a default backend that is not among its backends (differs from a fresh full sync; the template renders `default_backend` of a missing section)")
 }
+
+func init() {
+	doc := "Discipline of the model containers (Hosts, Backends, TCPBackends, Userlists, AcmeStorages), the reverse direction of dirty-bit: every insert into itemsAdd is paired with an insert into items under the same key (outside Shrink), every insert into itemsDel with a delete from items; items entries are deleted only for keys that were found; an acquire function returns the existing object when the lookup found one and otherwise stores and returns the object it created."
+	for _, p := range []string{"C01", "C05", "C07"} {
+		addRule(p, &core.Rule{ID: p + ".container-ops", Floor: 12, Run: containerOps, Doc: doc})
+	}
+}
+
+func containerOps(c *core.Ctx) {
+	for _, ct := range tripleContainers(c) {
+		for _, fn := range c.SrcFuncs() {
+			if core.PkgOf(fn) != "haproxy/types" {
+				continue
+			}
+			ops := mapOpsOn(fn, ct.full)
+			if len(ops) == 0 {
+				continue
+			}
+			name := core.FuncName(fn)
+			if strings.HasSuffix(name, ").Shrink") || strings.HasSuffix(name, ").shrink") {
+				continue
+			}
+			c.Touch(fn)
+			short := name[strings.LastIndex(name, "types.")+6:]
+			for _, op := range ops {
+				if !op.insert || op.field != "itemsAdd" && op.field != "itemsDel" {
+					continue
+				}
+				wantInsert := op.field == "itemsAdd"
+				paired := false
+				for _, o2 := range ops {
+					if o2.field == "items" && o2.insert == wantInsert && core.Key(o2.key) == core.Key(op.key) {
+						paired = true
+					}
+				}
+				verb := map[bool]string{true: "added", false: "removed"}[wantInsert]
+				c.Check(paired, short+" records as "+verb+" only what it "+map[bool]string{true: "adds to", false: "removes from"}[wantInsert]+" the current state", at(c, op.in), "", "an object is recorded in "+op.field+" but the current state (items) is not changed under the same key: the model lists it as "+verb+" while lookups disagree")
+			}
+			for _, op := range ops {
+				if op.field != "items" || op.insert {
+					continue
+				}
+				// deletes only found keys
+				ok := guardedBy(op.in, func(k string) bool { return strings.HasSuffix(k, ",ok#1") && strings.Contains(k, ".items[") }, true)
+				if kk := core.Key(op.key); strings.Contains(kk, "next(range(") && strings.Contains(kk, ".items") {
+					ok = true // the key comes from ranging over items itself
+				}
+				c.Check(ok, short+" deletes only keys it found", at(c, op.in), "", "delete(items, key) is not on the found branch of the lookup of that key: the deleted-object record holds a nil object or a present object is skipped")
+			}
+		}
+	}
+	// acquire functions
+	for _, x := range [][2]string{{"Hosts.AcquireHost", "findHost|FindHost"}, {"Backends.AcquireBackend", "FindBackend"}, {"TCPBackends.Acquire", ",ok"}, {"AcmeStorages.Acquire", ",ok"}} {
+		fn := c.Fn("haproxy/types", x[0])
+		if fn == nil {
+			continue
+		}
+		// creation: the value stored into items is the value returned on that path
+		var stored ssa.Value
+		for _, op := range mapOpsOn(fn, "haproxy/types."+strings.Split(x[0], ".")[0]) {
+			if op.field == "items" && op.insert {
+				stored = op.in.(*ssa.MapUpdate).Value
+			}
+		}
+		if stored == nil {
+			c.Violated(x[0]+" stores what it creates", c.Pos(fn.Pos()), "no insert into items")
+			continue
+		}
+		retStored, retExisting := false, false
+		for _, r := range core.Returns(fn) {
+			v := core.Results(r)[0]
+			var walk func(v ssa.Value, d int)
+			walk = func(v ssa.Value, d int) {
+				if d > 4 {
+					return
+				}
+				if v == stored {
+					retStored = true
+				}
+				switch y := v.(type) {
+				case *ssa.Phi:
+					for _, e := range y.Edges {
+						walk(e, d+1)
+					}
+				case *ssa.Call, *ssa.Extract, *ssa.Lookup:
+					k := core.Key(v)
+					for _, alt := range strings.Split(x[1], "|") {
+						if strings.Contains(k, alt) {
+							retExisting = true
+						}
+					}
+				}
+			}
+			walk(v, 0)
+		}
+		c.Check(retStored, x[0]+" returns the object it stored", c.Pos(fn.Pos()), "", "the object returned on the creation path is not the one stored into items: later lookups return a different object than the one the caller configured")
+		c.Check(retExisting, x[0]+" returns the existing object", c.Pos(fn.Pos()), "", "no return of the looked-up object: an existing object is replaced by a fresh one and loses its configuration")
+		// the creation is on the not-found branch
+		var mu ssa.Instruction
+		for _, op := range mapOpsOn(fn, "haproxy/types."+strings.Split(x[0], ".")[0]) {
+			if op.field == "items" && op.insert {
+				mu = op.in
+			}
+		}
+		okNF := false
+		for _, g := range guardsOf(mu) {
+			k := core.StripVersion(g.Key)
+			if strings.HasSuffix(k, " != nil)") && !g.Branch || strings.HasSuffix(k, " == nil)") && g.Branch || strings.HasSuffix(k, ",ok#1") && !g.Branch {
+				okNF = true
+			}
+		}
+		c.Check(okNF, x[0]+" creates only when nothing was found", at(c, mu), "", "the insert into items is not on the not-found branch of the lookup")
+	}
+}
